@@ -87,7 +87,7 @@ func drawStream(t *rapid.T) StreamCase {
 	return StreamCase{
 		Stream:      b,
 		Chunk:       rapid.SampledFrom([]int{1, 2, 3, 7, 64, 512, 4096}).Draw(t, "chunk"),
-		Mode:        rapid.SampledFrom([]string{"decode", "token", "mixed", "encode"}).Draw(t, "mode"),
+		Mode:        rapid.SampledFrom([]string{"decode", "token", "mixed", "typed", "encode"}).Draw(t, "mode"),
 		Indent:      rapid.SampledFrom([]string{"", " ", "\t"}).Draw(t, "indent"),
 		Escape:      rapid.Bool().Draw(t, "esc"),
 		EOFWithData: gen.OneIn(t, 3, "eofdata"),
@@ -114,11 +114,19 @@ func traceFork(c StreamCase) (tr []any) {
 	d.UseNumber()
 	for step := 0; step < 200; step++ {
 		tr = append(tr, "more", d.More(), "offset", d.InputOffset())
-		useTok := c.Mode == "token" || (c.Mode == "mixed" && step%3 != 2)
+		useTok := c.Mode == "token" || (c.Mode == "mixed" && step%3 != 2) || (c.Mode == "typed" && step%4 == 0)
 		if useTok {
 			tk, err := d.Token()
 			tr = append(tr, "token", tokNorm(tk), errType(err))
 			if err != nil {
+				break
+			}
+		} else if c.Mode == "typed" && step%2 == 1 {
+			// decode into a type most values do not fit: a type error must leave the stream usable
+			var n int8
+			err := d.Decode(&n)
+			tr = append(tr, "decode-int8", n, errType(err))
+			if err != nil && errType(err) != "*json.UnmarshalTypeError" {
 				break
 			}
 		} else {
@@ -142,11 +150,19 @@ func traceStd(c StreamCase) (tr []any) {
 	d.UseNumber()
 	for step := 0; step < 200; step++ {
 		tr = append(tr, "more", d.More(), "offset", d.InputOffset())
-		useTok := c.Mode == "token" || (c.Mode == "mixed" && step%3 != 2)
+		useTok := c.Mode == "token" || (c.Mode == "mixed" && step%3 != 2) || (c.Mode == "typed" && step%4 == 0)
 		if useTok {
 			tk, err := d.Token()
 			tr = append(tr, "token", tokNorm(tk), errType(err))
 			if err != nil {
+				break
+			}
+		} else if c.Mode == "typed" && step%2 == 1 {
+			// decode into a type most values do not fit: a type error must leave the stream usable
+			var n int8
+			err := d.Decode(&n)
+			tr = append(tr, "decode-int8", n, errType(err))
+			if err != nil && errType(err) != "*json.UnmarshalTypeError" {
 				break
 			}
 		} else {
